@@ -96,8 +96,26 @@ func unquote(v string) string {
 	return v
 }
 
+// splitSemi splits at ';' outside of quoted strings (quoted-pairs respected)
+func splitSemi(o string) []string {
+	var parts []string
+	start, inQ := 0, false
+	for i := 0; i < len(o); i++ {
+		switch {
+		case inQ && o[i] == '\\':
+			i++
+		case o[i] == '"':
+			inQ = !inQ
+		case o[i] == ';' && !inQ:
+			parts = append(parts, o[start:i])
+			start = i + 1
+		}
+	}
+	return append(parts, o[start:])
+}
+
 func splitOffer(o string) (mime string, params []Param) {
-	parts := strings.Split(o, ";")
+	parts := splitSemi(o)
 	mime = strings.TrimSpace(parts[0])
 	if !strings.Contains(mime, "/") {
 		if m, ok := extMIME[mime]; ok {
@@ -321,7 +339,7 @@ var tokens = []string{"utf-8", "gzip", "br", "en", "de", "iso-8859-1", "zstd", "
 	"fr-CH", "en-US", "fil", "iso-8859-15", "deflate", "es-419", "zh", "zh-Hant"}
 var qPool = []string{"0", "0.0", "0.000", "0.001", "0.1", "0.5", "0.50", "0.9", "0.999", "1", "1.0", "1.000"}
 var pnames = []string{"charset", "level", "v", "title"}
-var pvals = []string{"utf-8", "1", "2", `"a b"`, `"1"`, "UTF-8", `"x,y"`, `"x\"y"`, `"q\\"`}
+var pvals = []string{"utf-8", "1", "2", `"a b"`, `"1"`, "UTF-8", `"x,y"`, `"x\"y"`, `"q\\"`, `"x\,"`, `"\,\\\""`, `"\;q=0"`}
 
 func genStep(t *rapid.T) Step {
 	s := Step{Fn: rapid.SampledFrom([]string{"accepts", "accepts", "accepts", "format", "charsets", "encodings", "languages"}).Draw(t, "fn")}
@@ -368,7 +386,7 @@ func genStep(t *rapid.T) Step {
 		if rapid.IntRange(0, 2).Draw(t, "hasq") != 0 {
 			r.Q = rapid.SampledFrom(qPool).Draw(t, "q")
 		}
-		r.SemiWS = rapid.SampledFrom([]string{";", ";", "; ", " ;", " ; "}).Draw(t, "semi")
+		r.SemiWS = rapid.SampledFrom([]string{";", ";", "; ", " ;", " ; ", ";\t", "\t;", " \t; \t"}).Draw(t, "semi") // OWS = *( SP / HTAB )
 		s.Ranges = append(s.Ranges, r)
 	}
 	no := rapid.IntRange(1, 5).Draw(t, "no")
